@@ -152,8 +152,8 @@ TEXT["C12"] = dict(
     text="Permit/ticker LTS composed with a task tree (parents hold a permit while waiting for children), schedules as label lists (Coq kernel, no axioms): with a non-blocking "
          "release a release step is always enabled; for every max >= 1 every schedule of a finite task tree terminates (strictly decreasing measure incl. ticks) and no non-final "
          "configuration is stuck; limited runs project onto unlimited runs and every complete run delivers a permutation of all answers; blocking release is refuted by a concrete "
-         "deadlock schedule (max = 1), and so is the check-then-act hand-back `if len(ch)==cap(ch) {return}; ch <- x` (two goroutines finishing together: the second send blocks under every continuation). "
-         "Tie: real ConcatO searches under SetMaxRoutines(max), max in 1..100, must finish with the unlimited multiset; one limited context reused for several searches with idle refill periods; "
+         "deadlock schedule (max = 1), and so is the check-then-act hand-back `if len(ch)==cap(ch) {return}; ch <- x` (two goroutines finishing together: the second send blocks under every continuation), and so is starting the ticker before the initial fill (for every max a tick during the fill blocks the last send; the repaired order completes with exactly max permits). "
+         "Tie: real ConcatO searches under SetMaxRoutines(max), max in 1..100 and in the millions, must finish with the unlimited multiset; the limit installed twice; searches on cancelled children of the limited context; one limited context reused for several searches with idle refill periods; "
          "disjunctions whose sibling branches finish at the same instant under max in 1..3.",
     note="partial: timing relative to the 10ms refill period is runtime; the limiter model is a hand abstraction of limit.go checked through the termination/multiset oracle",
     technique="Coq measure/simulation proofs over an LTS (all schedules) + runtime probes",
